@@ -220,7 +220,7 @@ def validate_traces(chk, traces, concrete, seed):
         ok = v2[1][0] == 1
         chk.binding_demo = {'corrupted': 'first and last delivered row of pass 1 swapped', 'verdict': list(v2[1]),
                             'rejected_as_expected': ok}
-        if not ok:
+        if not ok and not chk.violations:
             raise tlc.MachineryError('binding demo failed: corrupted sort trace accepted')
 
 
